@@ -440,15 +440,28 @@ def _paren_preserving_rule(ctx, res) -> None:
     stores = [x for g in with_private_helpers(idx, f) for x in walk_local(g.node)  # the mapping may be built in a private helper
               if isinstance(x, ast.Assign) and any(isinstance(t, ast.Subscript) for t in x.targets)
               and any(isinstance(c, ast.Call) and call_name(c) == "_get_node_text" for c in ast.walk(x.value))]
-    if not stores:
-        raise AnalysisError("anchor=_ChangeComputer._get_matched_text: store of the bound text into the mapping not found")
-
     def restores_parens(fn) -> bool:
         consts = {y.value for y in ast.walk(fn.node) if isinstance(y, ast.Constant) and isinstance(y.value, str)}
         return "(" in consts and ")" in consts
 
+    values = {}
+    if not stores and f.cls is not None:
+        # the text bound to one name may be computed by a private step (`mapping[name] = self._get_bound_text(match, name)`): read it in
+        # place, keeping as calls the node-text reader and the helpers that can give parentheses back
+        from .common import inline_private_calls, _subst_single_locals
+        keep = tuple(n_ for n_, m_ in f.cls.methods.items() if n_ == "_get_node_text" or restores_parens(m_))
+        fnode = inline_private_calls(idx, f, keep=keep)
+        for x in walk_local(fnode):
+            if isinstance(x, ast.Assign) and any(isinstance(t, ast.Subscript) for t in x.targets):
+                v = _subst_single_locals(fnode, x.value)
+                if any(isinstance(c, ast.Call) and call_name(c) == "_get_node_text" for c in ast.walk(v)):
+                    stores.append(x)
+                    values[id(x)] = v
+    if not stores:
+        raise AnalysisError("anchor=_ChangeComputer._get_matched_text: store of the bound text into the mapping not found")
+
     for k, st in enumerate(stores, 1):
-        v = st.value
+        v = values.get(id(st), st.value)
         ok = False
         if isinstance(v, ast.Call) and call_name(v) != "_get_node_text" and is_self_attr(v.func) and f.cls is not None:
             h = idx.find_method(f.cls.qualname, v.func.attr)
